@@ -55,17 +55,17 @@ Definition accepting (st : lstate) : Prop :=
   end.
 
 Lemma on_scalar_value text sty st v :
-  accepting st -> dv_of_sres (resolve FJson sty None text) = Some v -> on_scalar text sty st = push_node v st.
+  accepting st -> dv_of_sres (resolve sty None text) = Some v -> on_scalar text sty st = push_node v st.
 Proof.
   intros [Hf Hs] Hr. unfold on_scalar. rewrite Hr.
   destruct (stack st) as [|[items|fs [k|]|w] tl]; try reflexivity; contradiction.
 Qed.
 
-Lemma resolve_true : resolve FJson Plain None s_true = RBool true.
+Lemma resolve_true : resolve Plain None s_true = RBool true.
 Proof. reflexivity. Qed.
-Lemma resolve_false : resolve FJson Plain None s_false = RBool false.
+Lemma resolve_false : resolve Plain None s_false = RBool false.
 Proof. reflexivity. Qed.
-Lemma resolve_null : resolve FJson Plain None s_null = RNull.
+Lemma resolve_null : resolve Plain None s_null = RNull.
 Proof. reflexivity. Qed.
 
 Lemma st_eta st : {| stack := stack st; docs_rev := docs_rev st; failed := failed st |} = st.
